@@ -219,6 +219,13 @@ func generate(p *Prog, prop string) *checkResult {
 		}
 		cr.obls = append(cr.obls, p.closesOnlyObligation(co, prop))
 	}
+	// frozen fields: assigned only while their object is under construction
+	for _, fz := range p.cs.Frozen {
+		if prop != "" && !containsStr(fz.Props, prop) {
+			continue
+		}
+		cr.obls = append(cr.obls, p.frozenObligation(fz, prop))
+	}
 	// lemmas
 	for _, lm := range p.cs.Lemmas {
 		if !containsStr(lm.Props, prop) {
